@@ -492,6 +492,11 @@ func (e *erasureCodingPartStore) newPartReader(ctx context.Context, tx database.
 				_, err := io.ReadFull(readers[i], fh)
 				if err != nil {
 					if errors.Is(err, io.EOF) || errors.Is(err, io.ErrUnexpectedEOF) {
+						if errors.Is(err, io.ErrUnexpectedEOF) {
+							// A partial frame header is a truncated shard, not the
+							// end of the part.
+							seenAny = true
+						}
 						closeReaderAt(i)
 						healShards[i] = true
 						continue
